@@ -202,7 +202,7 @@ func (vc *VC) pureAxiomsInto(out map[string]string) string {
 	for _, n := range names {
 		fn := vc.pureFns[n]
 		con := vc.contractOf(fn)
-		if con == nil || len(con.Requires) > 0 || fn.Signature.Results().Len() != 1 {
+		if con == nil || fn.Signature.Results().Len() != 1 {
 			continue
 		}
 		vars := map[string]Term{}
@@ -229,11 +229,23 @@ func (vc *VC) pureAxiomsInto(out map[string]string) string {
 		skip := false
 		for _, sp := range con.Splits {
 			pt, ok := vars[sp.Var]
-			if !ok || sp.HiVar != "" {
+			if !ok {
+				continue // internal case split (loop variable, ghost count): not a condition on the arguments
+			}
+			if sp.HiVar != "" {
 				skip = true
 				break
 			}
 			guard = And(guard, T(SBool, "(and (<= %s %s) (<= %s %s))", IntLit(int64(sp.Lo)).S, pt.S, pt.S, IntLit(int64(sp.Hi)).S))
+		}
+		// ... and under its precondition only
+		for _, c := range con.Requires {
+			t, err := ToSMT(c.Expr, env)
+			if err != nil || t.Sort.Kind != KBool {
+				skip = true
+				break
+			}
+			guard = And(guard, t)
 		}
 		if skip {
 			continue
